@@ -8,8 +8,11 @@ CHECK = {
         unit("audit-format", "audit", ["audit/c11_format_test.go"], "^TestVerif_C11_",
              quick={"checks": 20000, "shards": 1, "cap": 600},
              thorough={"checks": 150000, "shards": 8, "cap": 1800}),
-        unit("broker-order", "vault", ["vault/c11_test.go"], "^TestVerif_C11_",
+        unit("broker-order", "vault", ["vault/c11_test.go"], "^TestVerif_C11_BrokerOrder$",
              quick={"checks": 1500, "shards": 1, "cap": 900},
              thorough={"checks": 8000, "shards": 16, "cap": 3000}),
+        unit("audit-config", "vault", ["vault/c11x_test.go"], "^TestVerif_C11_AuditConfig$",
+             quick={"checks": 400, "shards": 1, "cap": 900},
+             thorough={"checks": 1500, "shards": 16, "cap": 3000}),
     ],
 }
